@@ -93,3 +93,12 @@ var Valuations = []A{
 
 // Attrs is the spread-attribute accessor.
 func (a *A) Attrs(id string) map[string]any { a.log("T", id); return a.AttrsVal(id) }
+
+// Comp logs the render of a hand-written component and fails if it is the designated one.
+func (a *A) Comp(id string) error {
+	a.log("C", id)
+	if id == a.FailID {
+		return ErrExpr
+	}
+	return nil
+}
